@@ -50,7 +50,7 @@ pub fn bin_sequences(wsize: usize, msize: usize, in_path: &str, out_path: &str, 
                     ktio::verif::note("took", record.as_ref().map(|r| r.n as i64).unwrap_or(-1));
                     if let Some(record) = record {
                         let mgen = if wsize == 0 {
-                            MinimiserGenerator::new(&record.seq, record.seq.len(), msize)
+                            MinimiserGenerator::new(&record.seq, record.seq.len().max(msize), msize)
                         } else {
                             MinimiserGenerator::new(&record.seq, wsize, msize)
                         };
@@ -137,7 +137,7 @@ pub fn seq_to_min(wsize: usize, msize: usize, in_path: &str, out_path: &str, thr
                     ktio::verif::note("took", record.as_ref().map(|r| r.n as i64).unwrap_or(-1));
                     if let Some(record) = record {
                         let mgen = if wsize == 0 {
-                            MinimiserGenerator::new(&record.seq, record.seq.len(), msize)
+                            MinimiserGenerator::new(&record.seq, record.seq.len().max(msize), msize)
                         } else {
                             MinimiserGenerator::new(&record.seq, wsize, msize)
                         };
